@@ -50,24 +50,38 @@ type spec struct {
 	dir       string  // "c2s" | "s2c"
 	senders   [][]int // message sizes per sender goroutine
 	receivers int
+	toggle    bool   // the sender corks its first message with SetManualFlush(true) and un-corks before the next
 	halfClose bool   // sender side half-closes after its sends
 	disturb   string // "", "close", "cancel": concurrent closer/canceller on the sending endpoint's peer... see body
 }
 
 func (s spec) String() string {
-	return fmt.Sprintf("%s senders=%v recv=%d hc=%v disturb=%q", s.dir, s.senders, s.receivers, s.halfClose, s.disturb)
+	t := ""
+	if s.toggle {
+		t = " toggle-manual-flush"
+	}
+	return fmt.Sprintf("%s senders=%v recv=%d hc=%v disturb=%q%s", s.dir, s.senders, s.receivers, s.halfClose, s.disturb, t)
 }
 
 type flusher interface{ RawFlush() error }
 
+type manualFlusher interface{ SetManualFlush(bool) }
+
 func sendAll(env *wl.Env, st *state, stream drpc.Stream, g int, base byte, sizes []int, wire *tr.End, sid *uint64) {
+	toggle, _ := env.Facts["toggle"].(bool)
 	for i, n := range sizes {
 		r := &sendRec{data: msg(base+byte(i), n)}
 		st.sends[g] = append(st.sends[g], r)
 		out := append([]byte(nil), r.data...)
+		corked := false
+		if mf, ok := stream.(manualFlusher); ok && toggle {
+			// the documented batching idiom: cork the first message, un-cork before the second
+			corked = i == 0 && len(sizes) > 1
+			mf.SetManualFlush(corked)
+		}
 		err := stream.MsgSend(&out, enc.Bytes{})
 		r.ok, r.done = err == nil, true
-		if err == nil && !env.Cfg.ManualFlush {
+		if err == nil && !env.Cfg.ManualFlush && !corked {
 			// flush-at-return: every frame of the message has been handed to Transport.Write
 			if !onWire(wire.Log, r.data) {
 				env.Failf("MsgSend returned nil (automatic flushing) but the message (seq %d, %d bytes) has not been completely passed to the transport", r.data0(), len(r.data))
@@ -173,6 +187,7 @@ func scenario(cfg wl.Config, sp spec) *mc.Scenario {
 		}
 		env = wl.NewEnv(cfg, handler)
 		env.Facts["st"] = st
+		env.Facts["toggle"] = sp.toggle
 		vs.Go("client", func() {
 			ctx, cancel := context.WithCancel(context.Background())
 			stream, err := env.Conn.NewStream(ctx, "/c01", enc.Bytes{})
@@ -342,7 +357,7 @@ func verify(env *wl.Env, sp spec) string {
 	return ""
 }
 
-func plans(tier string) []mc.Plan {
+func basePlans(tier string) []mc.Plan {
 	var ps []mc.Plan
 	add := func(cfg wl.Config, sp spec, bounds ...int) {
 		ps = append(ps, mc.Plan{Scen: scenario(cfg, sp), Bounds: bounds, Split: len(bounds) > 0 && bounds[len(bounds)-1] >= 2})
@@ -392,6 +407,13 @@ func plans(tier string) []mc.Plan {
 				}
 			}
 		}
+		// the batching idiom of SetManualFlush: two messages, one write, both delivered
+		for _, cfg := range cfgsQuick[:3] {
+			for _, dir := range []string{"c2s", "s2c"} {
+				add(cfg, spec{dir: dir, senders: [][]int{{1, 3}}, receivers: 1, halfClose: true, toggle: true}, 0, 1)
+				add(cfg, spec{dir: dir, senders: [][]int{{3, 1, 1}}, receivers: 1, halfClose: false, toggle: true}, 0, 1)
+			}
+		}
 		// one big message through the default split size and writer buffer
 		add(base, spec{dir: "c2s", senders: [][]int{{70000, 5000}}, receivers: 1, halfClose: true}, 0, 1)
 		add(base, spec{dir: "s2c", senders: [][]int{{70000}}, receivers: 1, halfClose: true}, 0, 1)
@@ -423,6 +445,14 @@ func plans(tier string) []mc.Plan {
 	add(base, spec{dir: "s2c", senders: [][]int{{70000, 131073}}, receivers: 1, halfClose: true}, 0, 1)
 	for _, cfg := range cfgsQuick {
 		for _, dir := range []string{"c2s", "s2c"} {
+			for _, hc := range []bool{true, false} {
+				add(cfg, spec{dir: dir, senders: [][]int{{1, 3}}, receivers: 1, halfClose: hc, toggle: true}, 0, 1, 2)
+				add(cfg, spec{dir: dir, senders: [][]int{{3, 1, 1}}, receivers: 1, halfClose: hc, toggle: true}, 0, 1)
+			}
+		}
+	}
+	for _, cfg := range cfgsQuick {
+		for _, dir := range []string{"c2s", "s2c"} {
 			add(cfg, spec{dir: dir, senders: [][]int{{1}, {3}}, receivers: 1, halfClose: true}, 0, 1, 2)
 			add(cfg, spec{dir: dir, senders: [][]int{{1, 3}, {2}}, receivers: 1, halfClose: true}, 0, 1, 2)
 			add(cfg, spec{dir: dir, senders: [][]int{{1, 3}}, receivers: 2, halfClose: true}, 0, 1, 2)
@@ -433,6 +463,16 @@ func plans(tier string) []mc.Plan {
 	}
 	add(small, spec{dir: "c2s", senders: [][]int{{1}, {3}}, receivers: 1, halfClose: true}, 3)
 	return ps
+}
+
+// plans adds, to every scenario, a twin explored relative to the reversed default schedule (a
+// second reference schedule for the deviation bound).
+func plans(tier string) []mc.Plan {
+	ps := basePlans(tier)
+	if tier == "thorough" {
+		return mc.WithReversed(ps, 1)
+	}
+	return mc.WithReversed(ps, -1)
 }
 
 func init() {
